@@ -139,7 +139,14 @@ def gen_world(rng, profile):
                     rhs = B("add", {"k": "idx"}, I(r.randint(0, 2)))
                 else:
                     rhs = {"k": "fld", "path": list(r.choice(hp[:3])[0])}
-                body.append({"k": "expr", "e": B(r.choice(["lt", "le", "ne", "ge", "eq"]), lhs, rhs)})
+                st = {"k": "expr", "e": B(r.choice(["lt", "le", "ne", "ge", "eq"]), lhs, rhs)}
+                if r.random() < 0.35:
+                    # guarded by a condition over a field of the same element (and, with an index, over the index): every
+                    # element follows the rule selected by its own fields
+                    gf = r.choice(ef)
+                    cond = B(r.choice(["lt", "ge", "eq", "ne"]), {"k": "itfld", "name": gf[0]}, I(r.randint(0, 3)))
+                    st = {"k": "implies", "c": cond, "b": [st]}
+                body.append(st)
             host["blocks"].append({"name": "zz1", "stmts": [{"k": "foreach_o", "list": ["ol0"], "n": ol["n"], "it": use_it,
                                                               "idx": use_idx, "body": body}]})
     # a list of objects each of which holds a list of objects, constrained by a nested foreach: the inner list is reached
